@@ -82,6 +82,7 @@ func (s *Storage) gc(sleep time.Duration) {
 			}
 		}
 		s.RUnlock()
+		verifGate("gc.scanned")
 		s.Lock()
 		// Double-checked locking.
 		// We might have replaced the item in the meantime.
